@@ -17,7 +17,7 @@ import json, os, random, re, time
 import vlib
 
 PID = "C17"
-MC_ACTIONS = {"FailCs": "MFailC", "FailNs": "MFailN", "PruneTs": "MPrune", "RgsSnaps": "MRgs"}
+MC_ACTIONS = {"FailCs": "MFailC", "FailNs": "MFailN", "PruneTs": "MPrune", "RgsSnaps": "MRgs", "ResolveCs": "MResolve"}
 
 
 def cfg_actions(cfg):
@@ -43,23 +43,29 @@ def convert(script, rng):
     for o in script["ops"]:
         o = dict(o)
         if o["op"] == "deliver":
-            o["via"] = mode if mode != "mixed" else rng.choice(["direct", "p2p"])
+            m = o["m"]
+            if (m["s1"] if m["k"] == "ca" else m["s"]) == -2:
+                o["via"] = "unsigned"     # the unsigned entry points (no verification requested)
+            else:
+                o["via"] = mode if mode != "mixed" else rng.choice(["direct", "p2p"])
             sent.append(o)
         elif o["op"] in ("failc", "failn"):
             o["via"] = rng.choice(["direct", "update"])
         ops.append(o)
         if dup_each and o["op"] == "deliver":
             d = dict(o)
-            d["via"] = rng.choice(["direct", "p2p"])
+            if d["via"] != "unsigned":
+                d["via"] = rng.choice(["direct", "p2p"])
             ops.append(d)
     if rng.random() < 0.3 and sent:
         again = list(sent)
         rng.shuffle(again)
         for o in again:
             d = dict(o)
-            d["via"] = rng.choice(["direct", "p2p"])
+            if d["via"] != "unsigned":
+                d["via"] = rng.choice(["direct", "p2p"])
             ops.append(d)
-    return {"lookup": script["lookup"], "caps": [1000, 1000, 1000, 1000], "ops": ops, "u": script["u"]}
+    return {"lookup": script["lookup"], "async": script.get("async", False), "caps": [1000, 1000, 1000, 1000], "ops": ops, "u": script["u"]}
 
 
 def selftest(wd, good_lines):
@@ -139,6 +145,46 @@ def selftest(wd, good_lines):
         if r["ev"] == "deliver" and r["res"] == "ok" and r["m"]["k"] == "ca":
             muts.append(("announcement-dropped", recs[:k] + recs[k + 1:]))
             break
+    # (h) an unsigned node announcement with the stored timestamp replaces the stored record
+    for k, r in enumerate(recs):
+        if (r["ev"] == "deliver" and r["via"] == "unsigned" and r["m"]["k"] == "na" and r["res"] == "err"
+                and any(n["n"] == r["m"]["n"] and n["ha"] and n["ats"] == r["m"]["ts"]
+                        and (n["ap"], n["ad"]) != (r["m"]["ap"], r["m"]["ad"]) for n in r["g"]["nodes"])):
+            m = clone()
+            for n in m[k]["g"]["nodes"]:
+                if n["n"] == r["m"]["n"]:
+                    n["ap"], n["ad"] = r["m"]["ap"], r["m"]["ad"]
+            m[k]["res"] = "ok"
+            muts.append(("unsigned-equal-timestamp-replaces", m))
+            break
+    # (i) resolving an asynchronous lookup applies an older held update than the newest one
+    for k, r in enumerate(recs):
+        if r["ev"] != "resolve" or not r["ok"]:
+            continue
+        held = [x["m"] for x in recs[:k] if x["run"] == r["run"] and x["ev"] == "deliver" and x["m"]["k"] == "cu"
+                and x["m"]["c"] == r["c"] and x["m"]["chain"]]
+        before = recs[k - 1].get("g", {"chans": []})
+        if any(c["c"] == r["c"] for c in before["chans"]):
+            continue
+        done = False
+        for ch in r["g"]["chans"]:
+            if ch["c"] != r["c"]:
+                continue
+            for d in (0, 1):
+                cur = ch["d%d" % d]
+                older = [h for h in held if h["d"] == d and h["ts"] < cur["ts"] and h["s"] != 0 and h["s"] != -1]
+                if cur["has"] and older:
+                    h = older[0]
+                    m = clone()
+                    for c2 in m[k]["g"]["chans"]:
+                        if c2["c"] == r["c"]:
+                            c2["d%d" % d] = {"has": True, "ts": h["ts"], "en": h["en"], "cltv": h["cltv"],
+                                             "hmin": h["hmin"], "hmax": h["hmax"], "fb": h["fb"], "fp": h["fp"]}
+                    muts.append(("async-older-held-update-wins", m))
+                    done = True
+                    break
+        if done:
+            break
     rejected = 0
     for name, m in muts:
         p = os.path.join(wd, "selftest-%s.ndjson" % name)
@@ -150,7 +196,7 @@ def selftest(wd, good_lines):
             rejected += 1
         else:
             vlib.log("[selftest] corrupted trace %s was ACCEPTED" % name)
-    if rejected != len(muts) or len(muts) < 6:
+    if rejected != len(muts) or len(muts) < 8:
         raise vlib.ToolError("binding self-test: %d of %d corrupted traces rejected" % (rejected, len(muts)))
     return {"mutations": len(muts), "rejected": rejected, "kinds": [n for n, _ in muts]}
 
@@ -163,10 +209,11 @@ def run(tier, seed):
     rng = random.Random(seed)
 
     # ---- 1. model checking + behaviour generation
-    cfgs = ["GossipMC.cfg", "GossipMC2.cfg", "GossipMC3.cfg", "GossipMC4.cfg", "GossipMC5.cfg", "GossipMC7.cfg"]
+    cfgs = ["GossipMC.cfg", "GossipMC2.cfg", "GossipMC3.cfg", "GossipMC4.cfg", "GossipMC5.cfg", "GossipMC7.cfg",
+            "GossipMC8.cfg"]
     if thorough:
         cfgs = ["GossipMC.cfg", "GossipMC2.cfg", "GossipMC3.cfg", "GossipMC4t.cfg", "GossipMC5t.cfg", "GossipMC6.cfg",
-                "GossipMC7.cfg"]
+                "GossipMC7t.cfg", "GossipMC8.cfg"]
     mcs = []
     per_cfg = []
     for cfg in cfgs:
@@ -220,7 +267,7 @@ def run(tier, seed):
     vlib.log("[gossip] events by kind: %s" % kinds)
     if summ["changed"] * 8 < summ["steps"] or summ["ok"] * 10 < summ["delivered"]:
         raise vlib.ToolError("driver is not exercising the graph: %s" % summ)
-    for need in ("deliver", "failc", "failn", "prune", "reload", "rgs"):
+    for need in ("deliver", "failc", "failn", "prune", "reload", "rgs", "resolve"):
         if kinds.get(need, 0) < 20:
             raise vlib.ToolError("vacuity: only %d `%s` events in the trace" % (kinds.get(need, 0), need))
 
@@ -255,7 +302,7 @@ def run(tier, seed):
             for ln in f:
                 if json.loads(ln)["run"] > len(conv):
                     head.append(ln)
-                    if len(head) >= 3000:
+                    if len(head) >= 6000:
                         break
         last_run = json.loads(head[-1])["run"]
         head = [x for x in head if json.loads(x)["run"] != last_run]
@@ -284,7 +331,8 @@ def run(tier, seed):
         "harness builds `lightning` with feature _test_utils: the wall-clock rejection of channel_updates older "
         "than two weeks / more than a day ahead in update_channel is compiled out; timestamps used are within "
         "that window anyway (run start + 100..400 s)",
-        "UTXO source answers synchronously (UtxoResult::Sync); the async pending-check path is not driven",
+        "asynchronous UTXO lookups: one pending lookup per scid at a time; no removals / snapshots / reloads while "
+        "a lookup is pending",
         "messages carry no excess data and no dont_forward flag; features are empty",
         "where the property text is silent (re-announcement of a removed channel, conflicting announcement of a "
         "known scid, half-updated channel at pruning time, pruning pass at the end of a snapshot) the trace spec "
